@@ -253,7 +253,7 @@ def reportHierA (n : Text.WNet) : Bool × String :=
     if fragHierA n T Rs then (true, "in") else
     let works := T :: Rs.filter (fun r => !isPrim r)
     let why : Option String :=
-      if works.any (fun r => r.params.isSome) then some "module-parameters"
+      if works.any (fun r => (astParams r).isNone) then some "module-parameter-without-value"
       else orElseS ((Rs.filter isPrim).findSome? (fun r => (whyLeaf r).map (fun s => "leaf:" ++ s))) fun _ =>
         orElseS (works.findSome? (fun W => orElseS ((W.ports.findSome? (whyAstPort W)).map (fun s => "astOf:" ++ s)) fun _ =>
           orElseS (((ordI n W).findSome? (whyAstInst n W)).map (fun s => "astOf:" ++ s)) fun _ =>
@@ -299,6 +299,7 @@ def reportHierText (n : Text.WNet) : Bool × String :=
 
 def whyTokA (m : WModA) : Option String :=
   if !attrsOK m.base.attrs then some "module-attribute-tokens"
+  else if !mparamsOK m.params then some "module-parameter-key(not-a-plain-name,`integer`,or-repeated)"
   else orElseS (nameWhy "module" m.base.name) fun _ =>
     orElseS ((m.base.ports.map (·.name)).findSome? (nameWhy "port")) fun _ =>
     orElseS (m.sitems.findSome? whyItem) fun _ =>
@@ -318,7 +319,7 @@ def reportHierTextA (n : Text.WNet) : Bool × String :=
       match astOfA n T, (laterA n ks).mapM (astAnyPA n) with
       | some m, some Ps =>
         let why : Option String :=
-          if !topTextBA n T then some "topText:empty-parameter-list"
+          if !topTextBA n T then some "topText:empty-parameter-list(instance-or-module)"
           else if !(laterA n ks).all (anyTextBA n) then some "anyText:a-later-module(attributes-or-parameters-on-a-primitive,empty-parameter-list)"
           else orElseS ((whyTokA m.toA).map (fun s => "tokOK:" ++ s)) fun _ =>
             orElseS (Ps.findSome? (fun P => match P with
